@@ -17,6 +17,7 @@
   `user.*` extended attributes exist on regular files and directories only (EPERM elsewhere).
 -/
 import Desync.Model.Archive
+import Desync.Model.Mode
 
 namespace Desync.LFS
 
@@ -34,7 +35,7 @@ inductive Obj
   | dir (attr : Attr) (mtime : Option Nat)
   | file (data : Bytes) (attr : Attr) (mtime : Option Nat)
   | symlink (target : Bytes) (attr : Attr) (mtime : Option Nat)
-  | dev (major minor : Nat) (attr : Attr) (mtime : Option Nat)
+  | dev (typ : Nat) (major minor : Nat) (attr : Attr) (mtime : Option Nat)   -- `typ`: the S_IFMT bits `mknod` got (S_IFCHR, S_IFBLK; S_IFIFO, S_IFSOCK)
   deriving DecidableEq, Repr, Inhabited
 
 def Obj.isDir : Obj → Bool
@@ -155,31 +156,34 @@ def symlinkAt (fs : FS) (target : Bytes) (p : List Name) : Except Err FS := do
   else if !parentIsDir fs rp then .error .noent
   else pure ((fs.set rp (.symlink target {} none)).touch rp.dropLast)
 
-def mknod (fs : FS) (p : List Name) (major minor : Nat) : Except Err FS := do
+/-- `mknod(path, typ | perm, dev)`; `typ` = the file-type bits of the mode argument.  The model keeps them
+    whatever they are (the kernel makes a regular file for S_IFREG/0 and refuses S_IFDIR and S_IFLNK: such a
+    call comes only from an archive whose device element contradicts its entry's mode). -/
+def mknod (fs : FS) (p : List Name) (typ major minor : Nat) : Except Err FS := do
   let rp ← resolve fs false p
   if rp = [] || (fs.get rp).isSome then .error .exist
   else if !parentIsDir fs rp then .error .noent
-  else pure ((fs.set rp (.dev major minor {} none)).touch rp.dropLast)
+  else pure ((fs.set rp (.dev typ major minor {} none)).touch rp.dropLast)
 
 def Obj.attr : Obj → Attr
   | .dir a _ => a
   | .file _ a _ => a
   | .symlink _ a _ => a
-  | .dev _ _ a _ => a
+  | .dev _ _ _ a _ => a
 
 def Obj.withAttr (o : Obj) (a : Attr) : Obj :=
   match o with
   | .dir _ m => .dir a m
   | .file d _ m => .file d a m
   | .symlink t _ m => .symlink t a m
-  | .dev ma mi _ m => .dev ma mi a m
+  | .dev ty ma mi _ m => .dev ty ma mi a m
 
 def Obj.withMtime (o : Obj) (t : Option Nat) : Obj :=
   match o with
   | .dir a _ => .dir a t
   | .file d a _ => .file d a t
   | .symlink tg a _ => .symlink tg a t
-  | .dev ma mi a _ => .dev ma mi a t
+  | .dev ty ma mi a _ => .dev ty ma mi a t
 
 /-- what `chown` does to the mode bits of a non-directory: S_ISUID (04000) goes, S_ISGID (02000)
     goes when S_IXGRP (010) is set -/
@@ -320,10 +324,15 @@ def createSymlink (o : Opts) (root : List Name) (s : LState) (name : Bytes) (m :
     let fs ← sys fs (lchtimes fs dst m.mtime.toNat)
     pure { s with fs := fs }
 
+/-- the file-type bits of `FilemodeToStatMode(n.Mode)|0666`, the mode `CreateDevice` hands to `mknod`
+    (`n.Mode` = `StatModeToFilemode` of the entry's mode) -/
+def mknodType (m : Meta) : Nat :=
+  (Mode.filemodeToStat (Mode.statToFilemode m.mode.toUInt32) &&& Mode.S_IFMT).toNat
+
 def createDevice (o : Opts) (root : List Name) (s : LState) (name : Bytes) (m : Meta) (major minor : Nat) : Except FS LState := do
   let dst := dstOf root name
   let fs ← unlinkIfThere s.fs dst
-  let fs ← sys fs (mknod fs dst major minor)
+  let fs ← sys fs (mknod fs dst (mknodType m) major minor)
   let fs ← setPerms o fs dst m
   if m.mtime = 0 then pure { s with fs := fs }
   else do
